@@ -23,11 +23,11 @@ def testOfString : String → Option Test
 def pinnedDecide (name : String) (user dflt : Option OVal) : Option (Except Err OVal) :=
   (testOfString userTest).bind fun tu => (testOfString defaultTest).map fun td => decideOption tu td name user dflt
 
-/-- `if user_options.get(name):` — truthiness of the supplied value (defect D12; after the repair
-    `if name in user_options:` this lemma becomes `testOfString userTest = some .contains`) -/
+/-- `if name in user_options:` — was a value supplied (D12 repaired by d8c74a2; before, the test was
+    `user_options.get(name)`, i.e. `Test.truthyGet`) -/
 theorem user_test_pinned : testOfString userTest = some Test.contains := by decide
 
-/-- `elif option.get("default"):` — truthiness of the default (D12; after the repair `.contains`) -/
+/-- `elif "default" in option:` — was a default declared (before d8c74a2: `option.get("default")`) -/
 theorem default_test_pinned : testOfString defaultTest = some Test.contains := by decide
 
 /-- what is stored is the supplied value / the declared default, as in the model -/
@@ -35,9 +35,7 @@ theorem userStored_eq : userStored = "user_options.get(name)" := rfl
 theorem defaultStored_eq : defaultStored = "option['default']" := rfl
 theorem neitherRaises_eq : neitherRaises = "DataGenNameError" := rfl
 
-/-- **the property for the pinned code, conditional on the tests**: as soon as both pinned tests are
-    `in`, the full decision table holds for the code — adopting the repair of D12 means replacing the
-    two `*_test_pinned` lemmas above and discharging `h1 h2` with them. -/
+/-- the decision table holds for the code as soon as both pinned tests are `in` -/
 theorem option_decision_pinned_of_in (h1 : testOfString userTest = some Test.contains)
     (h2 : testOfString defaultTest = some Test.contains) (name : String) (user dflt : Option OVal) :
     pinnedDecide name user dflt = some (optionSpec name user dflt) := by
@@ -47,6 +45,19 @@ theorem option_decision_pinned_of_in (h1 : testOfString userTest = some Test.con
 theorem option_decision_pinned (name : String) (user dflt : Option OVal) :
     pinnedDecide name user dflt = some (optionSpec name user dflt) :=
   option_decision_pinned_of_in user_test_pinned default_test_pinned name user dflt
+
+/-- **whole merge, for the code as it is**: a declared option that the user supplied evaluates to the
+    supplied value, whatever it is, also when it is declared several times -/
+theorem merge_supplied_pinned (tu td : Test) (h1 : testOfString userTest = some tu)
+    (h2 : testOfString defaultTest = some td) (defs : List OptDecl) (user plugin opts : AList OVal)
+    (extra : List String) (h : mergeOptions tu td defs user plugin = .ok (opts, extra))
+    (o : OptDecl) (ho : o ∈ defs) (u : OVal) (hu : user.lookup o.name = some u) :
+    opts.lookup o.name = some u := by
+  rw [user_test_pinned] at h1
+  rw [default_test_pinned] at h2
+  cases h1
+  cases h2
+  exact SnowModel.Props.C14.merge_supplied defs user plugin opts extra h o ho u hu
 
 theorem mergeOptionsSource_eq : mergeOptionsSource =
     ["options = raw_plugin_options.copy() if raw_plugin_options else {}",
